@@ -48,10 +48,18 @@ class LtlPastifier(LtlAstVisitor):
             self.subformula_horizons = h.horizons
             horizons[spec] = horizon
         pastified_specs = []
-        for spec in ast.specs:
-            horizon = horizons[spec]
-            pastified_spec = self.visit(spec, horizon)
-            pastified_specs.append(pastified_spec)
+        names = dict(ast.phi_name_to_node_dict)
+        try:
+            for spec in ast.specs:
+                horizon = horizons[spec]
+                pastified_spec = self.visit(spec, horizon)
+                pastified_specs.append(pastified_spec)
+        except Exception:
+            # visit() re-points the names to the nodes it builds: a pastify() that is refused half-way
+            # (a bound that is not a multiple of the sampling period) leaves them as they were
+            ast.phi_name_to_node_dict.clear()
+            ast.phi_name_to_node_dict.update(names)
+            raise
         ast.phi_name_to_node_dict = self.ast.phi_name_to_node_dict
         ast.specs = pastified_specs
         return ast
